@@ -1,0 +1,405 @@
+//go:build verif
+// +build verif
+
+/*
+ * Copyright (C) 2021 The poly network Authors
+ * This file is part of The poly network library.
+ *
+ * The poly network is free software: you can redistribute it and/or modify
+ * it under the terms of the GNU Lesser General Public License as published by
+ * the Free Software Foundation, either version 3 of the License, or
+ * (at your option) any later version.
+ *
+ * The poly network is distributed in the hope that it will be useful,
+ * but WITHOUT ANY WARRANTY; without even the implied warranty of
+ * MERCHANTABILITY or FITNESS FOR A PARTICULAR PURPOSE.  See the
+ * GNU Lesser General Public License for more details.
+ *
+ * You should have received a copy of the GNU Lesser General Public License
+ * along with the poly network.  If not, see <http://www.gnu.org/licenses/>.
+ */
+
+// Verification hook H5 (build tag "verif" only; add-only; nothing in this file is compiled
+// into a normal build). It exports the VBFT round-decision state (BlockPool, participant
+// selection, message builders) to the deterministic simulation harness WITHOUT running the
+// Server: no goroutine, timer, actor or channel consumer is started here. Every function is
+// a thin wrapper around the unexported function it names; none of them changes behaviour of
+// existing code.
+
+package vbft
+
+import (
+	"fmt"
+	"math"
+	"sort"
+
+	"github.com/ontio/ontology-crypto/keypair"
+	"github.com/polynetwork/poly/account"
+	"github.com/polynetwork/poly/common"
+	vconfig "github.com/polynetwork/poly/consensus/vbft/config"
+	"github.com/polynetwork/poly/core/ledger"
+	"github.com/polynetwork/poly/core/types"
+)
+
+// VerifNode holds a minimally initialised *Server: identity, chain config, peer pool with
+// every peer's public key, msg pool, chain store over a real ledger, and a real BlockPool.
+type VerifNode struct {
+	srv *Server
+}
+
+// NewVerifNode builds the parts of Server.initialize() that the round-decision code needs,
+// in the same order, and nothing else. lgr must be an initialised ledger. Note that
+// ConstructProposal (constructBlock) additionally reads ledger.DefLedger: the caller points
+// it at lgr before proposing.
+func NewVerifNode(acct *account.Account, lgr *ledger.Ledger, cfg *vconfig.ChainConfig, historyLen uint32) (*VerifNode, error) {
+	s := &Server{
+		msgHistoryDuration: historyLen,
+		account:            acct,
+		ledger:             lgr,
+		config:             cfg,
+	}
+	s.stateMgr = newStateMgr(s) // state stays Init; stateMgr.run() is never started
+	store, err := OpenBlockStore(lgr, nil)
+	if err != nil {
+		return nil, fmt.Errorf("failed to open block store: %s", err)
+	}
+	s.chainStore = store
+	if s.blockPool, err = newBlockPool(s, historyLen, store); err != nil {
+		return nil, fmt.Errorf("init blockpool: %s", err)
+	}
+	s.msgPool = newMsgPool(s, historyLen)
+	s.peerPool = NewPeerPool(0, s)
+	for _, p := range cfg.Peers {
+		if err := s.peerPool.addPeer(p); err != nil {
+			return nil, fmt.Errorf("failed to add peer %d: %s", p.Index, err)
+		}
+	}
+	if idx, present := s.peerPool.GetPeerIndex(vconfig.PubkeyID(acct.PublicKey)); present {
+		s.Index = idx
+	} else {
+		s.Index = math.MaxUint32
+	}
+	s.completedBlockNum = store.GetChainedBlockNum()
+	s.currentBlockNum = store.GetChainedBlockNum() + 1
+	return &VerifNode{srv: s}, nil
+}
+
+// NewVerifLightNode is a Server with identity only (account, index, idle state manager):
+// enough for buildParticipantConfig, constructEndorseMsg and constructCommitMsg.
+func NewVerifLightNode(acct *account.Account, index uint32) *VerifNode {
+	s := &Server{Index: index, account: acct}
+	s.stateMgr = newStateMgr(s)
+	return &VerifNode{srv: s}
+}
+
+func (n *VerifNode) Index() uint32                { return n.srv.Index }
+func (n *VerifNode) Config() *vconfig.ChainConfig { return n.srv.config }
+func (n *VerifNode) CurrentBlockNum() uint32      { return n.srv.GetCurrentBlockNo() }
+func (n *VerifNode) CommittedBlockNum() uint32    { return n.srv.GetCommittedBlockNo() }
+func (n *VerifNode) PeerPubKey(idx uint32) keypair.PublicKey {
+	return n.srv.peerPool.GetPeerPubKey(idx)
+}
+
+// PeerIndex maps a node id (hex public key) to its peer index (peerPool.GetPeerIndex), as
+// NewConsensusPayload does for the owner of an incoming payload.
+func (n *VerifNode) PeerIndex(nodeID string) (uint32, bool) {
+	return n.srv.peerPool.GetPeerIndex(nodeID)
+}
+
+// SetPeerConnected marks a peer alive/not alive (peerPool.peerConnected / peerDisconnected),
+// which isEndorser / isCommitter consult.
+func (n *VerifNode) SetPeerConnected(idx uint32, up bool) error {
+	if n.srv.peerPool.GetPeerPubKey(idx) == nil {
+		return fmt.Errorf("unknown peer %d", idx)
+	}
+	if up {
+		return n.srv.peerPool.peerConnected(idx)
+	}
+	return n.srv.peerPool.peerDisconnected(idx)
+}
+
+// ---- participant selection ----
+
+// BuildParticipantConfig is Server.buildParticipantConfig (called with metaLock held, as its
+// comment demands).
+func (n *VerifNode) BuildParticipantConfig(blkNum uint32, prev *Block, chainCfg *vconfig.ChainConfig) (*BlockParticipantConfig, error) {
+	n.srv.metaLock.Lock()
+	defer n.srv.metaLock.Unlock()
+	return n.srv.buildParticipantConfig(blkNum, prev, chainCfg)
+}
+
+func (n *VerifNode) SetParticipantConfig(cfg *BlockParticipantConfig) {
+	n.srv.metaLock.Lock()
+	defer n.srv.metaLock.Unlock()
+	n.srv.currentParticipantConfig = cfg
+}
+
+func (n *VerifNode) ParticipantConfig() *BlockParticipantConfig {
+	n.srv.metaLock.RLock()
+	defer n.srv.metaLock.RUnlock()
+	return n.srv.currentParticipantConfig
+}
+
+func (n *VerifNode) IsEndorser(blkNum, peerIdx uint32) bool { return n.srv.isEndorser(blkNum, peerIdx) }
+func (n *VerifNode) IsCommitter(blkNum, peerIdx uint32) bool {
+	return n.srv.isCommitter(blkNum, peerIdx)
+}
+func (n *VerifNode) ProposerRank(blkNum, peerIdx uint32) int {
+	return n.srv.getProposerRank(blkNum, peerIdx)
+}
+
+func VerifSelectionSeed(prev *Block) vconfig.VRFValue { return getParticipantSelectionSeed(prev) }
+
+func VerifCalcParticipantPeers(cfg *BlockParticipantConfig, chain *vconfig.ChainConfig, start, end int) []uint32 {
+	return calcParticipantPeers(cfg, chain, start, end)
+}
+
+func VerifCalcParticipant(vrf vconfig.VRFValue, posTable []uint32, k uint32) uint32 {
+	return calcParticipant(vrf, posTable, k)
+}
+
+// ---- message construction (signed with the node's own key) ----
+
+func (n *VerifNode) ConstructProposal(blkNum uint32, sysTxs, userTxs []*types.Transaction, chainCfg *vconfig.ChainConfig) (ConsensusMsg, error) {
+	return n.srv.constructProposalMsg(blkNum, sysTxs, userTxs, chainCfg)
+}
+
+func (n *VerifNode) ConstructEndorse(proposal ConsensusMsg, forEmpty bool) (ConsensusMsg, error) {
+	p, ok := proposal.(*blockProposalMsg)
+	if !ok {
+		return nil, fmt.Errorf("not a proposal msg")
+	}
+	return n.srv.constructEndorseMsg(p, forEmpty)
+}
+
+func (n *VerifNode) ConstructCommit(proposal ConsensusMsg, endorses []ConsensusMsg, forEmpty bool) (ConsensusMsg, error) {
+	p, ok := proposal.(*blockProposalMsg)
+	if !ok {
+		return nil, fmt.Errorf("not a proposal msg")
+	}
+	es := make([]*blockEndorseMsg, 0, len(endorses))
+	for _, m := range endorses {
+		e, ok := m.(*blockEndorseMsg)
+		if !ok {
+			return nil, fmt.Errorf("not an endorse msg")
+		}
+		es = append(es, e)
+	}
+	return n.srv.constructCommitMsg(p, es, forEmpty)
+}
+
+// VerifProposalBlock returns the *Block carried by a proposal msg (nil for other kinds).
+func VerifProposalBlock(msg ConsensusMsg) *Block {
+	if p, ok := msg.(*blockProposalMsg); ok {
+		return p.Block
+	}
+	return nil
+}
+
+// VerifNewProposalMsg wraps a block into a proposal msg.
+func VerifNewProposalMsg(blk *Block) ConsensusMsg { return &blockProposalMsg{Block: blk} }
+
+// VerifNewMsg returns a zero message of the given kind (all kinds that DeserializeVbftMsg
+// knows), for codec round-trip tests; nil for an unknown kind.
+func VerifNewMsg(t MsgType) ConsensusMsg {
+	switch t {
+	case BlockProposalMessage:
+		return &blockProposalMsg{}
+	case BlockEndorseMessage:
+		return &blockEndorseMsg{}
+	case BlockCommitMessage:
+		return &blockCommitMsg{}
+	case PeerHandshakeMessage:
+		return &peerHandshakeMsg{}
+	case PeerHeartbeatMessage:
+		return &peerHeartbeatMsg{}
+	case BlockInfoFetchMessage:
+		return &BlockInfoFetchMsg{}
+	case BlockInfoFetchRespMessage:
+		return &BlockInfoFetchRespMsg{}
+	case ProposalFetchMessage:
+		return &proposalFetchMsg{}
+	case BlockFetchMessage:
+		return &blockFetchMsg{}
+	case BlockFetchRespMessage:
+		return &BlockFetchRespMsg{}
+	}
+	return nil
+}
+
+// ---- block pool: feeding and decisions ----
+
+// Feed adds a decoded proposal / endorsement / commitment to the node's BlockPool
+// (newBlockProposal / newBlockEndorsement / newBlockCommitment).
+func (n *VerifNode) Feed(msg ConsensusMsg) error {
+	switch m := msg.(type) {
+	case *blockProposalMsg:
+		return n.srv.blockPool.newBlockProposal(m)
+	case *blockEndorseMsg:
+		return n.srv.blockPool.newBlockEndorsement(m)
+	case *blockCommitMsg:
+		return n.srv.blockPool.newBlockCommitment(m)
+	}
+	return fmt.Errorf("msg type %d is not a round msg", msg.Type())
+}
+
+func (n *VerifNode) EndorseDone(blkNum, C uint32) (uint32, bool, bool) {
+	return n.srv.blockPool.endorseDone(blkNum, C)
+}
+
+func (n *VerifNode) EndorseFailed(blkNum, C uint32) bool {
+	return n.srv.blockPool.endorseFailed(blkNum, C)
+}
+
+func (n *VerifNode) CommitDone(blkNum, C, N uint32) (uint32, bool, bool) {
+	return n.srv.blockPool.commitDone(blkNum, C, N)
+}
+
+func (n *VerifNode) EndorsedForBlock(blkNum uint32) bool {
+	return n.srv.blockPool.endorsedForBlock(blkNum)
+}
+func (n *VerifNode) EndorsedForEmptyBlock(blkNum uint32) bool {
+	return n.srv.blockPool.endorsedForEmptyBlock(blkNum)
+}
+func (n *VerifNode) CommittedForBlock(blkNum uint32) bool {
+	return n.srv.blockPool.committedForBlock(blkNum)
+}
+
+func (n *VerifNode) SetProposalEndorsed(proposal ConsensusMsg, forEmpty bool) error {
+	p, ok := proposal.(*blockProposalMsg)
+	if !ok {
+		return fmt.Errorf("not a proposal msg")
+	}
+	return n.srv.blockPool.setProposalEndorsed(p, forEmpty)
+}
+
+func (n *VerifNode) SetProposalCommitted(proposal ConsensusMsg, forEmpty bool) error {
+	p, ok := proposal.(*blockProposalMsg)
+	if !ok {
+		return fmt.Errorf("not a proposal msg")
+	}
+	return n.srv.blockPool.setProposalCommitted(p, forEmpty)
+}
+
+// BlockProposals lists the proposals accepted by the BlockPool for blkNum, in arrival order.
+func (n *VerifNode) BlockProposals(blkNum uint32) []ConsensusMsg {
+	ps := n.srv.blockPool.getBlockProposals(blkNum)
+	out := make([]ConsensusMsg, 0, len(ps))
+	for _, p := range ps {
+		out = append(out, p)
+	}
+	return out
+}
+
+// FindBlockProposal is Server.findBlockProposal (block pool first, then msg pool).
+func (n *VerifNode) FindBlockProposal(blkNum, proposer uint32, forEmpty bool) ConsensusMsg {
+	if p := n.srv.findBlockProposal(blkNum, proposer, forEmpty); p != nil {
+		return p
+	}
+	return nil
+}
+
+func (n *VerifNode) MsgPoolAdd(msg ConsensusMsg, msgHash common.Uint256) error {
+	return n.srv.msgPool.AddMsg(msg, msgHash)
+}
+
+func (n *VerifNode) MsgPoolHas(msg ConsensusMsg, msgHash common.Uint256) bool {
+	return n.srv.msgPool.HasMsg(msg, msgHash)
+}
+
+func (n *VerifNode) MsgPoolEndorsements(blkNum uint32) []ConsensusMsg {
+	return n.srv.msgPool.GetEndorsementsMsgs(blkNum)
+}
+
+// VerifEndorseSig is a read-only copy of one CandidateEndorseSigInfo (without signature bytes).
+type VerifEndorseSig struct {
+	EndorsedProposer uint32
+	ForEmpty         bool
+	Signature        []byte
+}
+
+// EndorseSigsView copies the pool's per-endorser signature records for blkNum.
+func (n *VerifNode) EndorseSigsView(blkNum uint32) map[uint32][]VerifEndorseSig {
+	pool := n.srv.blockPool
+	pool.lock.RLock()
+	defer pool.lock.RUnlock()
+	out := make(map[uint32][]VerifEndorseSig)
+	c := pool.candidateBlocks[blkNum]
+	if c == nil {
+		return out
+	}
+	for endorser, sigs := range c.EndorseSigs {
+		l := make([]VerifEndorseSig, 0, len(sigs))
+		for _, s := range sigs {
+			l = append(l, VerifEndorseSig{EndorsedProposer: s.EndorsedProposer, ForEmpty: s.ForEmpty, Signature: s.Signature})
+		}
+		out[endorser] = l
+	}
+	return out
+}
+
+// VerifCommitView is a read-only summary of one commit msg held by the pool.
+type VerifCommitView struct {
+	Committer uint32
+	Proposer  uint32
+	ForEmpty  bool
+	Endorsers []uint32 // keys of EndorsersSig, ascending
+}
+
+// CommitMsgsView lists the commit msgs the pool holds for blkNum, in arrival order.
+func (n *VerifNode) CommitMsgsView(blkNum uint32) []VerifCommitView {
+	pool := n.srv.blockPool
+	pool.lock.RLock()
+	defer pool.lock.RUnlock()
+	c := pool.candidateBlocks[blkNum]
+	if c == nil {
+		return nil
+	}
+	out := make([]VerifCommitView, 0, len(c.CommitMsgs))
+	for _, m := range c.CommitMsgs {
+		v := VerifCommitView{Committer: m.Committer, Proposer: m.BlockProposer, ForEmpty: m.CommitForEmpty}
+		for e := range m.EndorsersSig {
+			v.Endorsers = append(v.Endorsers, e)
+		}
+		sort.Slice(v.Endorsers, func(i, j int) bool { return v.Endorsers[i] < v.Endorsers[j] })
+		out = append(out, v)
+	}
+	return out
+}
+
+// ---- sealing ----
+
+// SealBlock performs the state-changing part of Server.sealBlock for the current block
+// number: blockPool.setBlockSealed, msgPool/blockPool.onBlockSealed and the currentBlockNum
+// bump (timer notification and resync, which need the running Server, are left out). It
+// returns the sealed ledger block as stored by the pool.
+func (n *VerifNode) SealBlock(block *Block, forEmpty bool, sigdata bool) (*types.Block, error) {
+	s := n.srv
+	sealedBlkNum := block.getBlockNum()
+	if sealedBlkNum != s.GetCurrentBlockNo() {
+		return nil, fmt.Errorf("seal of %d, current blknum: %d", sealedBlkNum, s.GetCurrentBlockNo())
+	}
+	if err := s.blockPool.setBlockSealed(block, forEmpty, sigdata); err != nil {
+		return nil, fmt.Errorf("failed to seal proposal: %s", err)
+	}
+	s.msgPool.onBlockSealed(sealedBlkNum)
+	s.blockPool.onBlockSealed(sealedBlkNum)
+	sealed, _ := s.blockPool.getSealedBlock(sealedBlkNum)
+	s.metaLock.Lock()
+	if sealedBlkNum >= s.currentBlockNum {
+		s.currentBlockNum = sealedBlkNum + 1
+	}
+	s.metaLock.Unlock()
+	if sealed == nil {
+		return nil, fmt.Errorf("sealed block %d not found in pool", sealedBlkNum)
+	}
+	return sealed.Block, nil
+}
+
+// SealedBlock is blockPool.getSealedBlock.
+func (n *VerifNode) SealedBlock(blkNum uint32) (*Block, common.Uint256) {
+	return n.srv.blockPool.getSealedBlock(blkNum)
+}
+
+// SubmitBlock is blockPool.submitBlock (persist the pending sealed block to the ledger).
+func (n *VerifNode) SubmitBlock(blkNum uint32) error { return n.srv.blockPool.submitBlock(blkNum) }
